@@ -37,6 +37,16 @@ CLAIMS = {
         design='3/C19', note='Partial by construction: necessary condition (key covers the options), not equality of runs.'),
 }
 
+CLAIMS['C28'] = dict(
+    technique='static analysis: abstract interpretation of every reporting call (id string-set evaluation, wrapper fixpoint, caller-bound parameters) and set inclusion EMIT subset-of LIST over the call graph',
+    text='Decides EMIT subset-of LIST: EMIT = ids of all reporting calls (ErrorMessage constructions, through wrappers found by fixpoint) '
+         'reachable from the analysis entry points with a user-facing severity, plus InternalError ids; LIST = ids obtained by '
+         'interpreting CppCheck::getErrorMessages context-sensitively. Ids are exact string sets from an abstract interpreter '
+         '(literals, ?:, +=, switch, getMessageId, case splitting on repeated pure conditions). 33 genuinely unlisted ids of the pinned '
+         'tree are recorded as known findings; any other unlisted id is a VIOLATION. Outside the claim: library <warn>, addon, clang-tidy, '
+         'debug/internal severities, the checkers summary.',
+    design='3/C28', note='LIST is over-approximated (a listing call that returns early at run time still counts), so misses are possible on that side; EMIT is exact for enumerable ids, non-enumerable ids are exit 2.')
+
 NOT_APPLICABLE = {
     'C01': 'soundness of inferred values vs. concrete executions of arbitrary programs; needs an executing/symbolic oracle, no structural necessary condition in valueflow.cpp',
     'C02': 'same as C01, for container sizes',
